@@ -30,6 +30,7 @@ TraceReset ==
     /\ fault' = FALSE
     /\ weird' = FALSE
     /\ anycall' = FALSE
+    /\ returned' = [k \in AllClusters |-> {}]
     /\ done' = "no"
 
 TraceCall == IsEvent("call") /\ Call(Ev.c, Range(Ev.batch))
